@@ -187,6 +187,9 @@ def run(ctx):
             for n, w in common.instance_writes(f.node):
                 fld = w.split('self.')[1].split(' ')[0].split('.')[0].split('(')[0]
                 ok = fld in per_run or (tl is not None and fld == tl) or fld in roles.cls.setters      # a property: its setter is examined itself
+                if fld == roles.enabled and f.qualname.split('.')[1] in (roles.play.name, roles.start.name):
+                    # the switch belongs to the user: a run that flips it (and means to flip it back) leaves it flipped on the exits in between
+                    ok = False
                 if 'an attribute of the object' in w:
                     # writing *into* the object a field refers to: only the thread-local store is the recorder's own; the parameters object is
                     # the per-class one shared by all later runs, the recordings belong to the cassette
